@@ -12,5 +12,13 @@ META = {
     },
 }
 
+META["C14"] = {
+    "category": "proof",
+    "design_ref": "DESIGN.md section 5 / C14",
+    "technique": "Lean 4: resolver if-chains extracted from generated Go (T2), diagonal-chain condition by kernel evaluation, generic theorem 'diagonal chain => resolver = first callback written for the value's own type'; exhaustive 3x63x63 + random behavioural correspondence",
+    "text": "The three generated resolvers are modelled as interpreters of the if-chains re-extracted from /repo on every run; for any chain that is diagonal (decidable, kernel-checked on the regenerated data for all 63 types) the TypeResolver/TypePredicatedResolver provably invoke exactly the first callback whose parameter is the value's own interface and otherwise return an unmatched error; the JSON resolver's selection is proved first-match. Constructors accept exactly the 63 legal signatures (table fact). The model is run against the real resolvers on ~15k cases per run, with a chain-independent spec monitor on the implementation's own behaviour.",
+    "note": "Trusted: Lean kernel, T2 extractor (regex over go/printer output of the resolver bodies; any unrecognised arm is an error), harness. Interface satisfaction in Go is assumed to be by own type only and is validated exhaustively.",
+}
+
 _ALL = ["C%02d" % i for i in range(1, 21)]
 NOT_APPLICABLE = [{"property_id": p, "reason": PENDING} for p in _ALL if p not in META]
